@@ -15,4 +15,39 @@ PROPS = {
         "n": {"quick": 150, "thorough": 2000},
         "rule": "generated composite scenarios (parent, hook program, population of owned/orphaned/foreign/look-alike objects, 1-3 syncs); non-trivial = at least one accepted write; distinct = different projected trace signature",
     },
+    "C03": {
+        "pkg": "./pkg/controller/composite/",
+        "run": "^TestVerif_Composite$",
+        "env": {"VERIF_PROP": "C03"},
+        "n": {"quick": 200, "thorough": 3000},
+        "rule": "composite scenarios over owned/orphaned/foreign/other-namespace/deleting objects x parent scope x generated selector; non-trivial = at least one accepted write; non-trivial = at least one accepted write; distinct = different projected trace signature",
+    },
+    "C04": {
+        "pkg": "./pkg/controller/composite/",
+        "run": "^TestVerif_Composite$",
+        "env": {"VERIF_PROP": "C04"},
+        "n": {"quick": 200, "thorough": 3000},
+        "rule": "composite scenarios with orphans to adopt and children to release, world edits after the cache was taken or between requests, deleting/recreated parents; non-trivial = at least one accepted write; distinct = different projected trace signature",
+    },
+    "C06": {
+        "pkg": "./pkg/controller/composite/",
+        "run": "^TestVerif_Composite$",
+        "env": {"VERIF_PROP": "C06"},
+        "n": {"quick": 200, "thorough": 3000},
+        "rule": "composite scenarios with every update method x equal/drifted children; non-trivial = at least one accepted write; distinct = different projected trace signature",
+    },
+    "C10": {
+        "pkg": "./pkg/controller/composite/",
+        "run": "^TestVerif_Composite$",
+        "env": {"VERIF_PROP": "C10"},
+        "n": {"quick": 200, "thorough": 3000},
+        "rule": "parent life cycles (delete with background/foreground/orphan propagation, unmatch, foreign finalizers) x finalize hook on/off x faults; non-trivial = at least one accepted write; distinct = different projected trace signature",
+    },
+    "C11": {
+        "pkg": "./pkg/controller/composite/",
+        "run": "^TestVerif_Composite$",
+        "env": {"VERIF_PROP": "C11"},
+        "n": {"quick": 200, "thorough": 3000},
+        "rule": "hook status values x live parent edited/recreated after the cache x faults on any request; non-trivial = at least one accepted write; distinct = different projected trace signature",
+    },
 }
